@@ -641,7 +641,7 @@ Section Miss.
     s_in st = i -> mixed_zero_in c i = false -> s_failed st = false -> hit c st = false ->
     run c order st =
       if nrows c i =? 0 then (st, Raised ValueErrorAllZero false [])
-      else (built c i, Returned (Some (spec_table c i)) (spec_calls c i)).
+      else (built c (s_cache st) i, Returned (Some (spec_table c i)) (spec_calls c i)).
   Proof.
     intros Hi Hmix Hf Hhit. unfold run. cbv zeta. rewrite Hhit, Hi, Hf, (shaped_all_data c i Hsh).
     cbn [andb negb]. rewrite (maps_are_entries Hmix).
@@ -709,19 +709,21 @@ Definition ok_inputs (c : cfg) (i : inputs) : Prop :=
 Inductive reach (c : cfg) : fstate -> Prop :=
 | reach_create st : create c = Ok st -> reach c st
 | reach_step st s : reach c st -> ok_inputs c (s_in (assign_all st (fst s))) ->
-                    reach c (fst (do_step c st s)).
+                    reach c (fst (do_step c st s))
+| reach_use_cache st b : reach c st -> reach c (set_cache st b).
 
 Lemma assign_all_keeps st a :
   s_children (assign_all st a) = s_children st /\ s_cached (assign_all st a) = s_cached st /\
-  s_out (assign_all st a) = s_out st /\ s_failed (assign_all st a) = s_failed st.
+  s_out (assign_all st a) = s_out st /\ s_failed (assign_all st a) = s_failed st /\
+  s_cache (assign_all st a) = s_cache st.
 Proof.
-  unfold assign_all. revert st. induction a as [|[l v] r IH]; intro st; simpl; [auto|].
-  destruct (IH (assign st l v)) as (H1 & H2 & H3 & H4). rewrite H1, H2, H3, H4. auto.
+  unfold assign_all. revert st. induction a as [|[l v] r IH]; intro st; simpl; [auto 6|].
+  destruct (IH (assign st l v)) as (H1 & H2 & H3 & H4 & H5). rewrite H1, H2, H3, H4, H5. auto 6.
 Qed.
 
 Lemma assign_all_inv c st a : Inv c st -> Inv c (assign_all st a).
 Proof.
-  destruct (assign_all_keeps st a) as (H1 & H2 & H3 & H4).
+  destruct (assign_all_keeps st a) as (H1 & H2 & H3 & H4 & _).
   unfold Inv. now rewrite H1, H2, H3, H4.
 Qed.
 
@@ -731,11 +733,14 @@ Proof.
   split; [reflexivity|]. simpl. discriminate.
 Qed.
 
-Lemma built_inv c i : 0 < nrows c i -> Inv c (built c i).
+Lemma built_inv c b i : 0 < nrows c i -> Inv c (built c b i).
 Proof.
   intro Hn. split; [reflexivity|]. unfold built. simpl. intros ci Hc _.
-  destruct (c_cache c); [|discriminate]. inversion Hc; subst. auto.
+  destruct b; [|discriminate]. inversion Hc; subst. auto.
 Qed.
+
+Lemma set_cache_inv c st o : Inv c st -> Inv c (set_cache_opt st o).
+Proof. destruct o; auto. Qed.
 
 Lemma run_inv c order st :
   wf_cfg c = true -> body_total c -> Inv c st -> ok_inputs c (s_in st) -> Inv c (fst (run c order st)).
@@ -754,9 +759,10 @@ Qed.
 
 Lemma reach_inv c st : wf_cfg c = true -> body_total c -> reach c st -> Inv c st.
 Proof.
-  intros Hwf Htot H. induction H as [st H|st s H IH Hok].
+  intros Hwf Htot H. induction H as [st H|st s H IH Hok|st b H IH].
   - now apply create_inv.
   - unfold do_step. apply run_inv; auto. now apply assign_all_inv.
+  - exact IH.
 Qed.
 
 (* after ANY history of (re-)assignments and runs, one more run on complete inputs returns
@@ -923,7 +929,7 @@ Proof.
   destruct (check_class (cfg_of q)); reflexivity.
 Qed.
 
-Lemma scenario_of_fresh q steps :
+Lemma scenario_of_fresh q (steps : list xstep) :
   scenario_of (match check_class (cfg_of q) with Some e => Err e | None => Ok (cfg_of q) end) steps
   = scenario (cfg_of q) steps.
 Proof. unfold scenario, create. destruct (check_class (cfg_of q)); reflexivity. Qed.
@@ -934,7 +940,7 @@ Definition fresh_class (q : request) : res cfg :=
 
 Theorem session_independent reg qs :
   session_go reg qs =
-  map (fun qs : request * list step =>
+  map (fun qs : request * list xstep =>
          OL [OS (name_of (fst qs) (fresh_class (fst qs))); scenario (cfg_of (fst qs)) (snd qs)]) qs.
 Proof.
   revert reg. induction qs as [|[q steps] r IH]; intro reg; [reflexivity|].
